@@ -541,9 +541,10 @@ class CircuitTemplate(AbstractBaseTemplate):
             columns = MultiIndex.from_tuples([col if isinstance(col, tuple) else (col,) for col in columns])
         results = DataFrame(data=np.asarray(data).T, columns=columns, index=time_vec)
 
-        # store current state of the network
-        for key in net.compute_graph.state_vars:
-            self._state_var_values[key] = net.compute_graph.get_var(key).value
+        # store current state of the network (a run on a copy leaves this template as it was)
+        if in_place:
+            for key in net.compute_graph.state_vars:
+                self._state_var_values[key] = net.compute_graph.get_var(key).value
 
         # clean up
         if clear:
@@ -626,12 +627,14 @@ class CircuitTemplate(AbstractBaseTemplate):
         # generate the run function
         func, args, arg_names, state_var_indices = net._ir.get_run_func(func_name=func_name, step_size=step_size,
                                                                         **kwargs)
-        self._state_var_indices = state_var_indices
+        # state bookkeeping belongs to the template that was compiled: a compilation of a copy leaves this one as it was
+        if in_place:
+            self._state_var_indices = state_var_indices
 
-        # set current network state if it was empty before
-        if not self.state:
-            for key in net.compute_graph.state_vars:
-                self._state_var_values[key] = net.compute_graph.get_var(key).value
+            # set current network state if it was empty before
+            if not self.state:
+                for key in net.compute_graph.state_vars:
+                    self._state_var_values[key] = net.compute_graph.get_var(key).value
 
         # map the backend variable names to the frontend variable names (must happen before clear)
         state_var_map = {}
@@ -719,12 +722,14 @@ class CircuitTemplate(AbstractBaseTemplate):
         func, args, arg_names, state_var_indices = net._ir.get_jacobian_func(func_name=func_name,
                                                                                step_size=step_size,
                                                                                sparse=sparse, **kwargs)
-        self._state_var_indices = state_var_indices
+        # state bookkeeping belongs to the template that was compiled: a compilation of a copy leaves this one as it was
+        if in_place:
+            self._state_var_indices = state_var_indices
 
-        # set current network state if it was empty before
-        if not self.state:
-            for key in net.compute_graph.state_vars:
-                self._state_var_values[key] = net.compute_graph.get_var(key).value
+            # set current network state if it was empty before
+            if not self.state:
+                for key in net.compute_graph.state_vars:
+                    self._state_var_values[key] = net.compute_graph.get_var(key).value
 
         # map the backend variable names to the frontend variable names (must happen before clear)
         state_var_map = {}
